@@ -2,6 +2,7 @@ import OdakProofs.Lemmas.Kernels
 import OdakProofs.Lemmas.PropagateLemmas
 import OdakProofs.Lemmas.NumpyPipelines
 import OdakProofs.Lemmas.GenKernels
+import OdakProofs.Lemmas.GenPipelines
 
 /-! # C01 – free-space propagation conserves optical energy and never creates it
   All statements: every grid size `n × m` (even, odd, non-square), every complex field `u`,
@@ -132,5 +133,71 @@ theorem C01_gen_pipelines_use_regenerated_kernels {n m : Nat} (u : CGrid ℝ n m
     npBL u dx lam k z = customNoAp u (blKernelN n m dx lam k z) := by
   rw [gen_asKernelT_eq, gen_tfKernelT_eq, gen_blKernelT_eq, gen_asKernelN_eq, gen_blKernelN_eq]
   exact ⟨rfl, rfl, rfl, rfl, rfl⟩
+
+end Odak
+
+/-! ## The same statements for the PIPELINES regenerated from the Python source on this run
+  (`OdakModel/Generated/Pipelines.lean`: which FFT, which shift, which product, in which order; tied to the hand model by
+  `OdakProofs/Lemmas/GenPipelines.lean`).  They stop compiling when the order of the operations in `custom`, in a torch method, in
+  `propagate_beam` or in a NumPy method changes. -/
+namespace Odak
+open Gen
+
+/-- the regenerated torch `angular_spectrum` / `transfer_function_fresnel` (default aperture `1.`, no padding) and NumPy
+    `angular_spectrum` conserve the energy -/
+theorem C01_gen_pipelines_conserve_energy {n m : Nat} (u : CGrid ℝ n m) (dx lam k z : ℝ) :
+    CGrid.energy (angularSpectrumT u (CGrid.const 1) dx lam z) = CGrid.energy u ∧
+    CGrid.energy (transferFunctionFresnelT u (CGrid.const 1) dx lam z) = CGrid.energy u ∧
+    CGrid.energy (angularSpectrumN u dx lam k z) = CGrid.energy u := by
+  obtain ⟨h1, _, h3, _⟩ := gen_torch_methods_eq u dx lam z 0 0 0 0
+  rw [h1, h3, gen_angularSpectrumN_eq]
+  exact ⟨C01_torch_as_conserves_energy u dx lam z, C01_torch_tf_conserves_energy u dx lam z, C01_np_as_conserves_energy u dx lam k z⟩
+
+/-- the regenerated NumPy `transfer_function_fresnel` (shift-first pipeline with the constant `(1/L)²`) conserves the energy -/
+theorem C01_gen_np_tf_conserves_energy {n m : Nat} (u : CGrid ℝ n m) (dx lam k z : ℝ) (hdx : 0 < dx) (hm : 0 < m) :
+    CGrid.energy (transferFunctionFresnelN u dx lam k z) = CGrid.energy u := by
+  rw [gen_transferFunctionFresnelN_eq]; exact C01_np_tf_conserves_energy u dx lam k z hdx hm
+
+/-- the regenerated band-limited pipelines (both APIs) never create energy, and a second application removes nothing more -/
+theorem C01_gen_bl_pipelines_never_create_energy {n m : Nat} (u : CGrid ℝ n m) (dx lam k z : ℝ) :
+    CGrid.energy (bandLimitedAngularSpectrumT u (CGrid.const 1) dx lam z) ≤ CGrid.energy u ∧
+    CGrid.energy (bandLimitedAngularSpectrumN u dx lam k z) ≤ CGrid.energy u ∧
+    CGrid.energy (bandLimitedAngularSpectrumT (bandLimitedAngularSpectrumT u (CGrid.const 1) dx lam z) (CGrid.const 1) dx lam z)
+      = CGrid.energy (bandLimitedAngularSpectrumT u (CGrid.const 1) dx lam z) ∧
+    CGrid.energy (bandLimitedAngularSpectrumN (bandLimitedAngularSpectrumN u dx lam k z) dx lam k z)
+      = CGrid.energy (bandLimitedAngularSpectrumN u dx lam k z) := by
+  have hb : ∀ v : CGrid ℝ n m, bandLimitedAngularSpectrumT v (CGrid.const 1) dx lam z = torchBL v dx lam z :=
+    fun v => (gen_torch_methods_eq v dx lam z 0 0 0 0).2.1
+  simp only [hb, gen_bandLimitedAngularSpectrumN_eq]
+  exact ⟨(C01_bl_never_creates_energy u dx lam k z).1, (C01_bl_never_creates_energy u dx lam k z).2,
+    (C01_bl_second_application_removes_nothing u dx lam k z).1, (C01_bl_second_application_removes_nothing u dx lam k z).2⟩
+
+/-- the regenerated `custom` with any kernel of modulus ≤ 1 and any Fourier-plane aperture with `|A| ≤ 1` never creates energy;
+    a binary aperture with a unit-modulus kernel is idempotent in energy -/
+theorem C01_gen_custom_aperture_never_creates_energy {n m : Nat} (u H A : CGrid ℝ n m)
+    (hH : ∀ i j, Cx.normSq (H.get i j) ≤ 1) (hA : ∀ i j, Cx.normSq (A.get i j) ≤ 1) :
+    CGrid.energy (customT u H A) ≤ CGrid.energy u := by
+  rw [gen_customT_eq]; exact C01_aperture_never_creates_energy u H A hH hA
+
+theorem C01_gen_custom_binary_aperture_idempotent {n m : Nat} (u H A : CGrid ℝ n m)
+    (hH : ∀ i j, Cx.normSq (H.get i j) = 1)
+    (hA : ∀ i j, Cx.normSq (A.get i j) = 0 ∨ Cx.normSq (A.get i j) = 1) :
+    CGrid.energy (customT (customT u H A) H A) = CGrid.energy (customT u H A) := by
+  simp only [gen_customT_eq]; exact C01_binary_aperture_idempotent u H A hH hA
+
+/-- through the regenerated dispatch of torch `propagate_beam` (no padding, default aperture) and of NumPy `propagate_beam`:
+    the angular-spectrum and Fresnel transfer-function types return a field of the same energy -/
+theorem C01_gen_propagate_beam_conserves_energy {n m : Nat} (u Kc : CGrid ℝ n m) (dx lam k z : ℝ) (s0 s1 s2 s3 : Nat) :
+    (∃ v, propagateBeamT_FFF "Angular Spectrum" u (CGrid.const 1) Kc dx lam k z s0 s1 s2 s3 = some v ∧
+      CGrid.energy v = CGrid.energy u) ∧
+    (∃ v, propagateBeamT_FFF "Transfer Function Fresnel" u (CGrid.const 1) Kc dx lam k z s0 s1 s2 s3 = some v ∧
+      CGrid.energy v = CGrid.energy u) ∧
+    (∃ v, propagateBeamN "Angular Spectrum" u dx lam k z = some v ∧ CGrid.energy v = CGrid.energy u) := by
+  refine ⟨⟨torchAS u dx lam z, ?_, C01_torch_as_conserves_energy u dx lam z⟩,
+    ⟨torchTF u dx lam z, ?_, C01_torch_tf_conserves_energy u dx lam z⟩,
+    ⟨npAS u dx lam k z, ?_, C01_np_as_conserves_energy u dx lam k z⟩⟩
+  · simp [gen_beamCore_eq, torchBeamCore, torchKernel, custom_const_one, torchAS]
+  · simp [gen_beamCore_eq, torchBeamCore, torchKernel, custom_const_one, torchTF]
+  · simp [gen_propagateBeamN_eq, npBeam]
 
 end Odak
